@@ -37,7 +37,7 @@ theorem round_finite (neg : Bool) (m : Nat) (e : Int) (b : Nat) (h : Sonic.Spec.
       omega
 
 theorem nativeTail_correct (f : FloatIn) (native : List Nat) (t : Token) (ht : scanToken native = some t)
-    (hg : nativeGuard t (native.drop t.len) = true) (hexp : (expVal t.exp).natAbs < 100000) :
+    (hg : nativeGuard t (native.drop t.len) = true) (hexp : (expVal t.exp).natAbs < 10000000000000000 ∨ t.len < 2 ^ 32) :
     nativeTail f native =
       match Sonic.Spec.Rne.round t.neg t.mantissa t.exponent with
       | some b => .ok (.real b) f.next .native
@@ -107,7 +107,7 @@ theorem native_path_agrees (buf : List Nat) (len start : Nat) (t : Token)
     (ht : scanToken (buf.drop start) = some t)
     (ht' : scanToken ((buf.drop start).take (len - start)) = some t)
     (hg : nativeGuard t (((buf.drop start).take (len - start)).drop t.len) = true)
-    (hexp : (expVal t.exp).natAbs < 100000) :
+    (hexp : (expVal t.exp).natAbs < 10000000000000000 ∨ t.len < 2 ^ 32) :
     (∀ v n, parseNumber buf len start = .ok v n .native → scanNumber buf start = .ok v n) ∧
     (∀ p, parseNumber buf len start = .err errInfinity p → scanNumber buf start = .infinity p) := by
   have hspec : ∀ f, Sonic.Proofs.Number.Good t (start + t.len) f →
